@@ -118,6 +118,8 @@ class OtoCheck(object):
                     # a bulk load: many fresh pairs plus a few that re-point existing keys to fresh values and move
                     # existing values under fresh keys
                     nfresh = r.choice([61, 62, 63, 64, 70, 200])
+                    if r.random() < 0.04:
+                        nfresh = r.choice([1023, 1024, 1025, 1500, 3000])      # thousands of pairs in one call
                     pairs = [['fk%d' % i, 'fv%d' % i] for i in range(nfresh)]
                     for _ in range(r.randint(0, 3)):
                         pairs.insert(r.randint(0, len(pairs)), [r.choice(ks), 'nv%d' % r.randint(0, 5)])
@@ -442,7 +444,7 @@ class M2mCheck(object):
             elif name == 'replace':
                 ops.append([side, 'replace', k, r.choice(ks + ['new'])])
             else:
-                ops.append([side, 'update', r.choice(['m2m', 'dict', 'pairs', 'iter']),
+                ops.append([side, 'update', r.choice(['m2m', 'dict', 'pairs', 'iter', 'm2m', 'dict', 'pairs', 'iter', 'own-inverse', 'itself']),
                             [[r.choice(ks), r.choice(vs)] for _ in range(r.choice([0, 1, 2, 4]))]])
         if hub:
             init = [[k, 'hub'] for k in A[:r.choice([31, 32, 33, 40])]] + [['a', v] for v in B[3:3 + r.choice([31, 32, 36])]]
@@ -595,7 +597,14 @@ class M2mCheck(object):
                 elif name == 'update':
                     pairs = [(lf(k), lf(v)) for k, v in op[3]]
                     shape = op[2]
-                    if shape == 'm2m':
+                    if shape == 'own-inverse':
+                        # symmetrising a relation: the object updated from its own inverse (or from itself)
+                        arg = obj.inv
+                        eff = [(v, k) for k, v in Q]
+                    elif shape == 'itself':
+                        arg = obj
+                        eff = []
+                    elif shape == 'm2m':
                         arg = type(obj)(pairs) if pairs else type(obj)()
                         others.append((arg, set(pairs)))
                         eff = pairs
